@@ -74,3 +74,22 @@ Definition proposer_make (me : N) (hint : list N) (r : N) (q : QC) (tc : option 
   let b := mkBlock q tc me r pl (SigOf me (CBlock (block_digest pre))) in
   modify (fun s => set_loopback (set_buffer s []) (s_loopback s ++ [b])) ;;;
   emit (OPropose b).
+
+(* `for x in l { body }` in the node monad: the body updates the loop-carried locals [a] and may leave through `?` *)
+Fixpoint mfor {X A} (l : list X) (f : X -> A -> M A) (a : A) : M A :=
+  match l with
+  | [] => ret a
+  | x :: r => a' <- f x a ;; mfor r f a'
+  end.
+
+(* Synchronizer: self.store.read(parent) followed by the deserialisation of the block *)
+Definition store_read_block (d : digest) : M (option Block) := s <- get ;; ret (store_get d (s_store s)).
+
+(* MempoolDriver: self.store.read(digest) of a batch *)
+Definition batch_read (x : N) : M (option unit) := s <- get ;; ret (if memN x (s_batches s) then Some tt else None).
+
+(* tx_payload_waiter.send(Wait(missing, block)): the payload waiter parks the block unless it already waits for it *)
+Definition pw_wait (missing : list N) (b : Block) : M unit :=
+  s <- get ;;
+  if existsb (fun e => block_eqb b (snd e)) (s_pw_pending s) then ret tt
+  else modify (fun s => set_pw s (s_pw_pending s ++ [(missing, b)])).
